@@ -34,3 +34,30 @@ def obligations(tier):
                         flags=['--object-bits', '12'], defines=['C19_BATCH=%d' % k],
                         bound='%d directives of family %s (first: %s) with concrete boundary arguments' % (n, fam, sample)))
     return obs
+
+def native_replay(ob, rep, repo, build):
+    """compile the failing batch against the REAL headers of the tree under check (g++ -fsanitize=address,undefined), run it, and report the
+    cases whose output differs from the expected bytes: the counterexample replayed on the real code"""
+    import subprocess, re, tempfile, shutil
+    defs = dict(d.split('=', 1) for d in ob.get('defines', []) if '=' in d)
+    tier = rep.get('tier', 'quick')
+    d = tempfile.mkdtemp(prefix='frgv_replay_')
+    try:
+        txt, _ = _tables(tier)
+        open(os.path.join(d, 'table.h'), 'w').write(txt)
+        flags = ['-DC19_BATCH=%s' % defs.get('C19_BATCH', '0')]
+        if 'LOG_LEN' in defs:
+            flags = ['-DC19_BATCH=-1', '-DREPLAY_LOG_LEN=%s' % defs['LOG_LEN']]
+        exe = os.path.join(d, 'replay')
+        cmd = ['g++', '-std=c++20', '-O1', '-fsanitize=address,undefined', '-fno-sanitize-recover=undefined', '-w', '-I', os.path.join(repo, 'include'),
+               '-DREPLAY_TABLE="%s"' % os.path.join(d, 'table.h')] + flags + [os.path.join(os.path.dirname(os.path.abspath(__file__)), 'replay_driver.cpp'), '-o', exe]
+        c = subprocess.run(cmd, stdout=subprocess.PIPE, stderr=subprocess.PIPE, text=True, timeout=300)
+        if c.returncode != 0:
+            return {'confirmed': False, 'reason': 'native replay driver does not compile against this tree: ' + c.stderr[-400:]}
+        r = subprocess.run([exe], stdout=subprocess.PIPE, stderr=subprocess.PIPE, text=True, timeout=120)
+        mism = [l for l in r.stdout.splitlines() if l.startswith('MISMATCH')]
+        san = [l for l in r.stderr.splitlines() if 'ERROR: AddressSanitizer' in l or 'runtime error' in l]
+        return {'confirmed': bool(mism or san), 'against': os.path.join(repo, 'include'), 'command': ' '.join(cmd), 'mismatches': mism[:8], 'sanitizer': san[:4],
+                'reason': '' if (mism or san) else 'the real headers produce the expected bytes for every case of this batch: the failure is not reproduced natively'}
+    finally:
+        shutil.rmtree(d, ignore_errors=True)
